@@ -131,6 +131,59 @@ func run(line string) (out string) {
 	return o1
 }
 
+// alias: "applying policy for one peer never changes the route as seen by another peer". A stored route whose
+// community attributes have spare slice capacity is cloned twice (as policy evaluation for two peers does) and each
+// clone gets a different community of every kind added; the first clone, and the stored route, must not change.
+func alias(kind string) string {
+	mk := func() *table.Path {
+		lc := make([]*bgp.LargeCommunity, 1, 8)
+		lc[0] = bgp.NewLargeCommunity(65000, 1, 1)
+		cs := make([]uint32, 1, 8)
+		cs[0] = 6553601
+		ec := make([]bgp.ExtendedCommunityInterface, 1, 8)
+		ec[0] = bgp.NewTwoOctetAsSpecificExtended(bgp.EC_SUBTYPE_ROUTE_TARGET, 65000, 1, true)
+		nh, _ := bgp.NewPathAttributeNextHop(ip(0x0a000001))
+		attrs := []bgp.PathAttributeInterface{bgp.NewPathAttributeOrigin(0), bgp.NewPathAttributeAsPath(nil), nh,
+			bgp.NewPathAttributeCommunities(cs), bgp.NewPathAttributeExtendedCommunities(ec), bgp.NewPathAttributeLargeCommunities(lc)}
+		nlri, _ := bgp.NewIPAddrPrefix(netip.MustParsePrefix("10.1.0.0/24"))
+		return table.NewPath(bgp.RF_IPv4_UC, nil, bgp.PathNLRI{NLRI: nlri}, false, attrs, time.Unix(1000, 0), false)
+	}
+	showAll := func(p *table.Path) string {
+		var l []string
+		for _, a := range p.GetPathAttrs() {
+			switch a.GetType() {
+			case bgp.BGP_ATTR_TYPE_COMMUNITIES, bgp.BGP_ATTR_TYPE_EXTENDED_COMMUNITIES, bgp.BGP_ATTR_TYPE_LARGE_COMMUNITY:
+				l = append(l, strings.ReplaceAll(a.String(), " ", ""))
+			}
+		}
+		return strings.Join(l, ";")
+	}
+	add := func(p *table.Path, n uint32) {
+		switch kind {
+		case "large":
+			p.SetLargeCommunities([]*bgp.LargeCommunity{bgp.NewLargeCommunity(65000, 2, n)}, false)
+		case "ext":
+			p.SetExtCommunities([]bgp.ExtendedCommunityInterface{bgp.NewTwoOctetAsSpecificExtended(bgp.EC_SUBTYPE_ROUTE_TARGET, 65000, n, true)}, false)
+		default:
+			p.SetCommunities([]uint32{n}, false)
+		}
+	}
+	stored := mk()
+	before := showAll(stored)
+	a := stored.Clone(false)
+	add(a, 100)
+	afterA := showAll(a)
+	b := stored.Clone(false)
+	add(b, 200)
+	if showAll(stored) != before {
+		return "stored-route-mutated " + before + " -> " + showAll(stored)
+	}
+	if showAll(a) != afterA {
+		return "other-peers-route-mutated " + afterA + " -> " + showAll(a)
+	}
+	return "ok"
+}
+
 func main() {
 	slog.SetDefault(slog.New(slog.NewTextHandler(os.Stderr, &slog.HandlerOptions{Level: slog.LevelError + 4})))
 	sc := bufio.NewScanner(os.Stdin)
@@ -138,6 +191,10 @@ func main() {
 	w := bufio.NewWriter(os.Stdout)
 	defer w.Flush()
 	for sc.Scan() {
-		fmt.Fprintln(w, run(sc.Text()))
+		if l := sc.Text(); strings.HasPrefix(l, "alias ") {
+			fmt.Fprintln(w, alias(strings.TrimPrefix(l, "alias ")))
+		} else {
+			fmt.Fprintln(w, run(l))
+		}
 	}
 }
